@@ -214,6 +214,9 @@ func cmdCheck(args []string) int {
 	for _, ob := range all {
 		seenNames[ob.Name] = true
 		r := ob.Result
+		if len(ob.Props) > 0 && !containsStr(ob.Props, id) && !ob.ExpectSat {
+			continue // obligation belongs to another property's clause of the same function
+		}
 		if ob.ExpectSat {
 			nCover++
 			if r.Status == "unsat" {
@@ -555,4 +558,13 @@ func checkContractMirror(vdir, root string) map[string]string {
 		return nil
 	})
 	return out
+}
+
+func containsStr(xs []string, x string) bool {
+	for _, y := range xs {
+		if y == x {
+			return true
+		}
+	}
+	return false
 }
